@@ -487,3 +487,5 @@ _quick("C18", "C18_manyreconnects", "N = 3 / 5 / 6 earlier connections under one
 _quick("C11", "C11_followerack", "the follower's side of an acknowledgement (real ReplicationAckDB follower functions, acknowledgements captured on the connection to the leader): four records one after the other (pooled entries recycled from the second on), each applied and flushed in either order, the flush succeeding or failing: nothing sent after the first event alone, exactly one 64-byte acknowledgement naming the record after the second, positive only if replay and flush both succeeded", ["-witness", "20"])
 
 _quick("C10", "C10_forward", "forwarding through the text wrapper: a follower whose text connection is wrapped in TransparencyTextServerProtocol with an in-memory link, a leader that executes every forwarded frame (real BinaryServerProtocol.ProcessParse; results back through the link's real processTextProcotol) and a reference leader with a plain text client; every program of 3 commands out of {LOCK k, UNLOCK k, LOCK k by another id, UNLOCK by that id, PUSH j, UNLOCK j}, the leader's results delivered right after each command or only when the follower's handler waits (vfBlockHook): every reply equals the reference client's byte for byte, the follower holds nothing itself", [], reach=["end", "relayed", "handler-waited"], native=False)
+
+_quick("C10", "C10_relaybin", "forwarding through the binary wrapper, for every frame: any LOCK / UNLOCK frame (all fields symbolic; database 0, no value frame, concurrent-check flag clear) through TransparencyBinaryServerProtocol.ProcessParse (its own hand-inlined decoder) goes out on the link to the leader as exactly one frame that equals the client's byte for byte, and nothing is answered or applied locally; any lock result frame coming back (undefined trailing bytes zero) through processBinaryProcotol is written to the client as exactly those 64 bytes", [], reach=["end", "forwarded"], native=False)
